@@ -70,6 +70,7 @@ type runner struct {
 	rnd       *rand.Rand
 	flushGen  int
 	track     *memTracker
+	arrival   bool // write calls are sequential: the arrival rule of first/last fields is checked
 }
 
 func newRunner(res *caseResult, dir string, sc *schema, caseID, placementName string, rnd *rand.Rand, extra func(o *node.Options)) (*runner, error) {
@@ -381,7 +382,9 @@ func (r *runner) run(q *node.Query, m *node.Model) (*node.QueryResult, *node.Exp
 		}
 		return res, exp, nil, "error"
 	}
-	return res, exp, node.Compare(exp, res.ResultSet, q.GroupBy, node.CompareOptions{}), ""
+	// arrival: values of one (series, storage slot) written by successive Write calls - the later call wins for a last
+	// field, the earlier one for a first field (not decidable when calls run concurrently)
+	return res, exp, node.Compare(exp, res.ResultSet, q.GroupBy, node.CompareOptions{Arrival: r.arrival}), ""
 }
 
 // check runs one query at the current state and reports a violation when it differs from the model.
@@ -570,6 +573,8 @@ func (r *runner) classify(q *node.Query, st storageState, diffs []node.Diff, fie
 		clsFileDrop = "C11/family/table-file-results-dropped-when-memdb-does-not-know-the-field"
 		clsTwoAgg   = "C11/field-agg/two-aggregate-types-of-one-field-cross-applied-at-merge"
 		clsReader   = "C11/reader/single-field-block-mapped-to-first-query-field"
+		// kv/version FindFiles + kv/compact_job.go makeInputIterator
+		clsLevelOrder = "C11/arrival-order/level1-table-file-ranked-younger-than-level0-files"
 	)
 	type variation struct {
 		w, p, d, f bool
@@ -647,6 +652,21 @@ func (r *runner) classify(q *node.Query, st storageState, diffs []node.Diff, fie
 	for _, v := range vars[1:] {
 		if matches(q, v) {
 			return dataClass(v)
+		}
+	}
+	// level order: a level 1 table file (older data) is listed after the level 0 files at query time and at compaction
+	for _, withPlaces := range []bool{false, true} {
+		m := r.track.altModelLevelOrder(withPlaces)
+		if m == nil {
+			break
+		}
+		_, _, d, status := r.run(q, m)
+		r.res.count("diagnostic_queries", 1)
+		if status == "" && len(d) == 0 {
+			if withPlaces {
+				return "C11/combined/places+level-order"
+			}
+			return clsLevelOrder
 		}
 	}
 	aggs := r.m.AggTypes(q)
@@ -900,6 +920,7 @@ func runHistCase(idx int, dir, tier string, seed int64) *caseResult {
 			res.Notes = append(res.Notes, fmt.Sprintf("%s: open failed: %v", style, err))
 			continue
 		}
+		r.arrival = true
 		res.count("placements", 1)
 		failed := false
 		lastBatch := -1
@@ -982,6 +1003,11 @@ func runHistCase(idx int, dir, tier string, seed int64) *caseResult {
 			}
 			finals[style] = fr
 		}
+		if cell := os.Getenv("C11_DUMP_CELL"); cell != "" {
+			// debugging: <metric>,<field>,<tag>=<value>,<from ms>,<to ms> - the executed operations of this placement and
+			// every written value of the cell in write order
+			dumpCell(cell, style, r.history, writes)
+		}
 		r.close()
 		_ = os.RemoveAll(pdir)
 	}
@@ -1004,7 +1030,7 @@ func runHistCase(idx int, dir, tier string, seed int64) *caseResult {
 				res.count("metamorphic_query_pairs", 1)
 				exp := final.Eval(q)
 				var differing []string
-				firstLast := true
+				firstLast, oneCell := true, false
 				for key, v := range base.canon[qi] {
 					ov, ok := other.canon[qi][key]
 					if ok && (ov == v || (ov-v < 1e-9 && v-ov < 1e-9)) {
@@ -1022,6 +1048,9 @@ func runHistCase(idx int, dir, tier string, seed int64) *caseResult {
 					if ev == nil || (len(ev.Possible) < 2 && !ev.Unknown) {
 						firstLast = false
 					}
+					if ev != nil && ev.Contributors < 2 {
+						oneCell = true // fed by a single (series, storage slot): pure arrival order of the write calls
+					}
 				}
 				for key := range other.canon[qi] {
 					if ev := expValueOfKey(exp, key); ev == nil || ev.Lenient {
@@ -1037,12 +1066,19 @@ func runHistCase(idx int, dir, tier string, seed int64) *caseResult {
 				}
 				sort.Strings(differing)
 				class := "C11/metamorphic/value-depends-on-flush-placement"
-				if firstLast {
+				switch {
+				case firstLast && oneCell:
+					// values of one series and one storage slot written by successive calls: the later call wins for last,
+					// the earlier for first, wherever the flushes fell (see the directed arrival-order scenarios)
+					class = "C11/metamorphic/first-last-value-of-one-slot-depends-on-flush-placement"
+				case firstLast:
+					// a query bucket fed by several (series, storage slot) cells that lie in different places
 					class = "C11/metamorphic/first-last-value-depends-on-flush-placement"
 				}
 				res.violation(class, fmt.Sprintf("%s: %s gives different results for the same writes under placements memory and %s (%s at the end): %s",
 					caseID, q.SQL(), style, other.states[qi], strings.Join(headStrings(differing, 4), "; ")),
-					map[string]interface{}{"case": caseID, "sql": q.SQL(), "placements": []string{"memory", style}, "differing": headStrings(differing, 20), "schema": sc})
+					map[string]interface{}{"case": caseID, "sql": q.SQL(), "placements": []string{"memory", style}, "differing": headStrings(differing, 20), "schema": sc,
+						"first_differing_cell_written": cellWrites(q, exp, differing[0], writes)})
 			}
 		}
 	}
@@ -1077,4 +1113,59 @@ func expValue(exp *node.Expected, group, item string, ts int64) *node.ExpValue {
 func writeResult(dir string, res *caseResult) {
 	data, _ := json.Marshal(res)
 	_ = os.WriteFile(filepath.Join(dir, "result.json"), data, 0o644)
+}
+
+func dumpCell(cell, style string, history []string, writes []writeBatch) {
+	parts := strings.Split(cell, ",")
+	if len(parts) != 5 {
+		return
+	}
+	kv := strings.SplitN(parts[2], "=", 2)
+	var from, to int64
+	fmt.Sscan(parts[3], &from)
+	fmt.Sscan(parts[4], &to)
+	fmt.Printf("DUMP placement %s operations:\n", style)
+	for _, h := range history {
+		fmt.Println("DUMP   ", h)
+	}
+	for bi, w := range writes {
+		for pi, p := range w.Points {
+			if p.Metric != parts[0] || p.Tags[kv[0]] != kv[1] || p.Timestamp < from || p.Timestamp >= to {
+				continue
+			}
+			for _, f := range p.Fields {
+				if f.Name == parts[1] {
+					fmt.Printf("DUMP batch %d point %d ts %d (slot %d) %s=%v\n", bi, pi, p.Timestamp, p.Timestamp/slotMs%360, f.Name, f.Value)
+				}
+			}
+		}
+	}
+}
+
+// cellWrites lists, in write order, the points behind one result cell ("<group>|<item>|<bucket ms>: ..."): write batch,
+// series, storage slot and the fields the point carried.
+func cellWrites(q *node.Query, exp *node.Expected, differing string, writes []writeBatch) []string {
+	parts := strings.Split(strings.SplitN(differing, ": ", 2)[0], "|")
+	if len(parts) != 3 || exp.Plan.IntervalMs <= 0 {
+		return nil
+	}
+	var ts int64
+	fmt.Sscan(parts[2], &ts)
+	var out []string
+	for bi, w := range writes {
+		for _, p := range w.Points {
+			if p.Metric != q.Metric || p.Timestamp < ts || p.Timestamp >= ts+exp.Plan.IntervalMs || node.GroupKeyOf(q.GroupBy, p.Tags) != parts[0] {
+				continue
+			}
+			var fs []string
+			for _, f := range p.Fields {
+				fs = append(fs, fmt.Sprintf("%s=%v", f.Name, f.Value))
+			}
+			if p.Histogram != nil {
+				fs = append(fs, "histogram")
+			}
+			out = append(out, fmt.Sprintf("batch %d series %s slot %d: %s", bi, p.SeriesKey(), p.Timestamp/slotMs, strings.Join(fs, " ")))
+		}
+	}
+	return headStrings(out, 30)
 }
